@@ -51,6 +51,7 @@ class Fn:
         self.aggregates = aggregates
         self.ret = ret
         self.lambda_index = lambda_index
+        self.lambda_select = lambda_select   # generic lambdas: picks the operator() specialisation (default: the first)
         self.extra_params = extra_params
         self.post = post  # optional text transformation of the emitted C (must be mechanical; recorded)
 
@@ -65,7 +66,7 @@ class Fn:
             ops = [m for m in astload.walk(lam) if m.get('kind') == 'CXXMethodDecl' and m.get('name') == 'operator()' and astload.has_body(m)]
             # a generic lambda (auto parameters) has a template pattern plus instantiations: take an instantiation
             inst = [m for m in ops if not any('auto' in t for t in astload.param_types(m))]
-            if self.select is not None and self.lambda_select is not None:
+            if self.lambda_select is not None:
                 inst = [m for m in inst if self.lambda_select(m)]
             if not inst:
                 raise ExtractionError(f'{self.cname}: lambda without an instantiated operator()')
